@@ -23,7 +23,12 @@ def pair_status(ctx):
     def f(v1, v2, options):
         key = ('pair', v1, v2, '--redundant' in options)
         if key not in ctx.memo:
-            argv = ['abidiff', '--no-default-suppression'] + (['--redundant'] if '--redundant' in options else []) + [ctx.libs[v1], ctx.libs[v2]]
+            argv = ['abidiff', '--no-default-suppression'] + (['--redundant'] if '--redundant' in options else [])
+            # a binary shipped without its .debug* sections comes with the debug-info tree of its package (abipkgdiff --d1/--d2)
+            for v, opt in ((v1, '--debug-info-dir1'), (v2, '--debug-info-dir2')):
+                if v.endswith('_strip'):
+                    argv += [opt, os.path.join(ctx.libs[v[:-6] + '_dbgroot'], 'usr', 'lib', 'debug')]
+            argv += [ctx.libs[v1], ctx.libs[v2]]
             o = ctx.run('abidiff', {'argv': argv})
             if o.klass[0] != 'exit':
                 raise C.InfraError('abidiff died on pool pair %s %s: %s' % (v1, v2, o.klass))
@@ -45,7 +50,7 @@ def make_items(ctx, only=None):
         if only and name != only:
             continue
         rng = C.Prng(C.mix_seed(ctx.seed, 30, 7, i))
-        wl = K.gen_workload(rng, big=(i % 7 == 6), same_prefix=True)
+        wl = K.gen_workload(rng, big=(i % 7 == 6), same_prefix=True, splitdbg=True)
         if i == 0:
             wl = {'files': [{'path': 'libtiny.so', 'v1': 'tiny_v0', 'v2': 'tiny_v1'}, {'path': 'libmathx.so', 'v1': 'mathx_v0', 'v2': None}],
                   'format': 'dir', 'abignore': 'none', 'options': ['--no-default-suppression']}       # removed binary, every other pair clean
@@ -61,15 +66,23 @@ def make_items(ctx, only=None):
             wl = {'files': [{'path': 'libtiny.so', 'v1': 'tiny_v0', 'v2': 'tiny_v0'}, {'path': 'tool', 'v1': 'tool_v0_exec', 'v2': None},
                             {'path': 'libmathx.so', 'v1': None, 'v2': 'mathx_v1'}],
                   'format': 'tar', 'abignore': 'none', 'options': ['--no-default-suppression', '--no-added-binaries']}   # removed ET_EXEC executable, an added library, archive
+        if i == 4:
+            wl = {'files': [{'path': 'lib/libshapes.so', 'v1': 'shapes_v1', 'v2': 'shapes_v2'}, {'path': 'lib/libcxx.so', 'v1': 'cxx_v1', 'v2': 'cxx_v1'},
+                            {'path': 'bin/tool', 'v1': 'tool_v0', 'v2': 'tool_v0'}],
+                  'format': 'dir', 'abignore': 'none', 'options': ['--no-default-suppression'], 'splitdbg': True}      # split debug info: a change only the debug info shows
+        if i == 5:
+            wl = {'files': [{'path': 'libfnptr.so', 'v1': 'fnptr_v0', 'v2': 'fnptr_v1'}, {'path': 'libmathx.so', 'v1': 'mathx_v0', 'v2': None},
+                            {'path': 'libtiny.so', 'v1': 'tiny_v0_nodbg', 'v2': 'tiny_v1'}],
+                  'format': 'tar.gz', 'abignore': 'none', 'options': ['--no-default-suppression'], 'splitdbg': True}   # split debug info in archives, a removed binary, one binary without any
         if len(set(K.side_prefixes(wl))) != 1:
             raise C.InfraError('workload %s leaves the region the reference model is valid in: ELF directory prefixes %r' % (name, K.side_prefixes(wl)))
         it = c31.prepare_item(ctx, name, wl, variant='plain')
         it['model'] = K.model(wl, ps)
         # the per-binary report of every changed pair, as abidiff prints it (abipkgdiff indents it by two blanks)
-        it['model']['reports'] = sorted((os.path.basename(f['path']), pair_report(ctx, f['v1'], f['v2'], wl['options'])) for f in wl['files']
+        it['model']['reports'] = sorted((os.path.basename(f['path']), pair_report(ctx, K.eff(wl, f['v1']), K.eff(wl, f['v2']), wl['options'])) for f in wl['files']
                                         if f['v1'] and f['v2'] and not ('--dso-only' in wl['options'] and K.fam_of(f['path']) in K.EXES) and os.path.basename(f['path']) in it['model']['sections']
                                         and not ('--fail-no-dbg' in wl['options'] and (f['v1'].endswith('_nodbg') or f['v2'].endswith('_nodbg')))
-                                        and ps(f['v1'], f['v2'], wl['options']) & 4)
+                                        and ps(K.eff(wl, f['v1']), K.eff(wl, f['v2']), wl['options']) & 4)
         items[name] = it
     return items
 
@@ -89,20 +102,43 @@ def make_plans(ctx, tier, items):
                 rng = C.Prng(C.mix_seed(ctx.seed, 30, 5, i)); i += 1
                 plans.append({'item': name, 'params': {'simt': K.gen_simt(rng, items[name]['nfiles']), 'parallel': rng.chance(1, 2),
                                                       'torn': {'side': rng.choice([1, 1, 2]), 'permille': rng.range(20, 980)}}})
+            if items[name]['wl'].get('splitdbg'):
+                # the same for the archive of a debug-info package: the binaries are then compared without (part of) their debug info
+                for k in range(3):
+                    rng = C.Prng(C.mix_seed(ctx.seed, 30, 6, i)); i += 1
+                    plans.append({'item': name, 'params': {'simt': K.gen_simt(rng, items[name]['nfiles']), 'parallel': rng.chance(1, 2),
+                                                          'torn': {'target': 'debuginfo', 'side': rng.choice([1, 2]), 'permille': rng.range(20, 980)}}})
     return plans
 
 
 def execute_torn(ctx, it, params):
+    import subprocess
     tn = params['torn']
+    target = tn.get('target', 'main')
     src = it['p1'] if tn['side'] == 1 else it['p2']
+    if target == 'debuginfo':
+        src = os.path.join(os.path.dirname(it['p1']), 'pkg-%s1-debuginfo.%s' % ('f' if tn['side'] == 1 else 's', it['wl']['format']))
     body = open(src, 'rb').read()
     cut = max(1, len(body) * tn['permille'] // 1000)
     name = os.path.basename(src)
+    # what tar itself says about the fragment: a cut that falls between two members of an uncompressed archive leaves a
+    # shorter archive tar extracts without complaint - abipkgdiff cannot know, and nothing is asserted about such a run
+    pk = ('tar-accepts', src, cut)
+    if pk not in ctx.memo:
+        import threading
+        probe = os.path.join(ctx.rundir, 'probe-%d-%d-%s' % (os.getpid(), threading.get_ident(), C.sha(('%s|%d' % (src, cut)).encode())[:12]))
+        open(probe, 'wb').write(body[:cut])
+        ctx.memo[pk] = subprocess.run(['tar', '-tf', probe], stdout=subprocess.DEVNULL, stderr=subprocess.DEVNULL).returncode == 0
+        os.unlink(probe)
+    tar_accepts = ctx.memo[pk]
 
     def prepare(run):
         open(os.path.join(run, name), 'wb').write(body[:cut])
-    p1, p2 = ('@RUN@/' + name, it['p2']) if tn['side'] == 1 else (it['p1'], '@RUN@/' + name)
-    o = ctx.run('abipkgdiff', K.spec(it['wl'], p1, p2, dict(params['simt']), parallel=params.get('parallel', True)), prepare=prepare)
+    sp = K.spec(it['wl'], it['p1'], it['p2'], dict(params['simt']), parallel=params.get('parallel', True), root=os.path.dirname(it['p1']))
+    if src not in sp['argv']:
+        raise C.InfraError('torn-archive plan: %s is not an argument of the run' % src)
+    sp['argv'] = ['@RUN@/' + name if a == src else a for a in sp['argv']]
+    o = ctx.run('abipkgdiff', sp, prepare=prepare)
     st = o.res.get('simt', {})
     m = it['model']
     verdict, key = None, None
@@ -110,11 +146,13 @@ def execute_torn(ctx, it, params):
         verdict, key = (st['fatal_class'], st.get('fatal_details', '')[:600]), st['fatal_class']
     elif o.klass[0] != 'exit':
         verdict, key = ('crash-in-parallel-run', o.status_key()), 'crash:' + o.status_key()
-    elif o.exit == 0 and m['status'] != 0:
-        verdict, key = ('verdict-mismatch', 'package %d is a torn archive (%d of %d bytes) and the packages differ (true verdict %d), yet abipkgdiff exits 0' % (
-            tn['side'], cut, len(body), m['status'])), 'verdict-mismatch:torn-archive'
-    return F.Result(verdict, key, ['media/torn-archive'], [(it['name'], 'torn', tn['side'], tn['permille'])], digest=(o.exit, C.sha(o.stdout or b''), st.get('log_hash')),
-                    info={'exit': o.exit, 'model_status': m['status'], 'torn': tn, 'bytes_kept': cut, 'archive_bytes': len(body)}, steps=st.get('steps', 0), outcome=o.status_key())
+    elif o.exit == 0 and m['status'] != 0 and not tar_accepts:
+        what = 'package %d' % tn['side'] if target == 'main' else 'the debug-info package of package %d' % tn['side']
+        verdict, key = ('verdict-mismatch', '%s is a torn archive (%d of %d bytes; tar fails on it) and the packages differ (true verdict %d), yet abipkgdiff exits 0' % (
+            what, cut, len(body), m['status'])), 'verdict-mismatch:torn-archive' if target == 'main' else 'verdict-mismatch:torn-debuginfo-archive'
+    return F.Result(verdict, key, ['media/torn-archive' if target == 'main' else 'media/torn-debuginfo-archive'] + (['media/torn-archive-that-tar-accepts'] if tar_accepts else []),
+                    [(it['name'], 'torn', target, tn['side'], tn['permille'])], digest=(o.exit, C.sha(o.stdout or b''), st.get('log_hash')),
+                    info={'exit': o.exit, 'model_status': m['status'], 'torn': tn, 'bytes_kept': cut, 'archive_bytes': len(body), 'tar_accepts_the_fragment': tar_accepts}, steps=st.get('steps', 0), outcome=o.status_key())
 
 
 def execute(ctx, it, params):
@@ -192,6 +230,8 @@ def describe(ctx, cov, items, plans, results):
                      'workloads_with_removal_or_addition_inside_a_directory_tree': sum(1 for it in items.values() if any('/' in f['path'] for f in it['wl']['files'])
                                                                                       and any(not (f['v1'] and f['v2']) for f in it['wl']['files'])),
                      'per_binary_reports_compared_with_abidiff_text': sum(len(it['model'].get('reports', [])) for it in items.values()),
+                     'workloads_with_split_debug_info_packages': sum(1 for it in items.values() if it['wl'].get('splitdbg')),
+                     'split_debug_info_workloads_with_a_change_that_needs_the_debug_info': sum(1 for it in items.values() if it['wl'].get('splitdbg') and it['model']['sections']),
                      'workloads_all_clean': sum(1 for it in items.values() if it['model']['status'] == 0),
                      'workloads_with_changed_and_clean_pairs': sum(1 for it in items.values() if it['model']['sections'] and len(it['model']['sections']) < sum(1 for f in it['wl']['files'] if f['v1'] and f['v2'])),
                      'distinct_pairs_judged_by_abidiff': sum(1 for k in ctx.memo if k[0] == 'pair'),
